@@ -150,8 +150,9 @@ type Case struct {
 // runs unconditionally).  While such a defect is present its trigger is excluded by
 // construction so that the campaigns keep looking for OTHER violations; whether it is present
 // is probed once per process with the finding's own minimal sequence, so the exclusion
-// disappears by itself when the defect is repaired.  C18_INCLUDE_KNOWN=all forces every
-// trigger in, C18_INCLUDE_KNOWN=none forces every trigger out, or give a comma list of names.
+// disappears by itself when the defect is repaired (a finding without a deterministic probe
+// stays excluded until it is named).  C18_INCLUDE_KNOWN=all forces every trigger in,
+// C18_INCLUDE_KNOWN=none forces every trigger out, a comma list of names forces those in.
 func excluded(name string, present func() bool) bool {
 	switch v := os.Getenv("C18_INCLUDE_KNOWN"); {
 	case v == "all" || v == "1":
@@ -164,7 +165,6 @@ func excluded(name string, present func() bool) bool {
 				return false
 			}
 		}
-		return true
 	}
 	// the probe runs against the tree under test, which may be broken in some other way (a
 	// mutation trial): a probe that panics or does not return excludes nothing
@@ -216,6 +216,17 @@ var excludeForeignEntryDeleted = excluded("foreign-entry-deleted", func() bool {
 	})
 	return cl.VerifSize() != c.VerifLiveSize()
 })
+
+// excludeRegisterDuringCleanup: Cleaner.Cleanup takes its snapshot of the buckets BEFORE
+// markStale.  A cache registered between the snapshot and the moment markStale rotates and
+// marks the last generation stale can load entries into that generation; the pass does not
+// clean the new cache (not in the snapshot), the generation is dropped from the cleaner's list,
+// and the entries stay live but unaccounted until the next pass that is over the limit.  Only
+// a real schedule shows it (no step of the cleaner calls out inside that window), so there is
+// no probe and no deterministic replay: it stays excluded until named in C18_INCLUDE_KNOWN.
+// With the exclusion on, the concurrent run does not let a registration overlap Cleanup
+// (it still overlaps Rotate, CleanEmptyGenerations and ReleaseBuckets freely).
+var excludeRegisterDuringCleanup = excluded("register-during-cleanup", func() bool { return true })
 
 func exclusionLabels() []string {
 	var l []string
